@@ -56,6 +56,9 @@ impl ProgCase {
             clock_start: 1_700_000_000_000,
             random_seed: 12345,
             withhold_imports: false,
+            linked_promises: false,
+            host_activity_pm: 0,
+            internal_sources: BTreeMap::new(),
         }
     }
     /// Structural shrink candidates: delete one statement node, or unwrap one block.
